@@ -194,5 +194,5 @@ func ceiling(s *slip.Scope, f slip.Object, args slip.List, depth int) slip.Value
 	case slip.Complex:
 		slip.TypePanic(s, depth, "number", tn, "real")
 	}
-	return slip.Values{q, r}
+	return slip.Values{canonicalNumber(q), canonicalNumber(r)}
 }
